@@ -29,3 +29,8 @@ add("C02", "c02", "exploration", 1000, 12000,
     t={"require": ["ev:dangling-tag-read", "ev:referrers-nonempty", "ev:repush-after-delete", "ev:wrong-offset-write", "ev:immutable-refusal", "ev:mount-ok", "ev:commit-ok"]},
     assumptions=["reference model internal/model transcribes interface.go's documented semantics; tolerances: a repository without content may be NAME_UNKNOWN or empty, a dangling tag may resolve or be MANIFEST_UNKNOWN, rejection of a malformed manifest may carry any error code (none is documented)",
                  "artifactType filter always empty (filtering is a documented TODO)"])
+
+add("C03", "c03", "exploration", 200, 4000,
+    assumptions=["real loopback HTTP (httptest servers, one http.Transport per hop)",
+                 "well-formed repository names and tags only (the client rejects malformed ones locally)",
+                 "tolerated by construction: degenerate ranges (only 'no wrong bytes'), mount size 0 over HTTP, HEAD-based resolves compared by status class, un-coded == UNKNOWN, repositories without content may be unknown or empty, a declared size that disagrees with the content is refused by net/http itself (no OCI code), BlobWriter.Cancel and wrong-offset resumes are not part of the differential (C04 covers the latter)"])
